@@ -228,7 +228,8 @@ var bothPhases = []resource.Phase{resource.PhaseRunning, resource.PhaseTearingDo
 func H_History() {
 	ctx := context.Background()
 	var st state.State
-	if verif.Choose("wrapper", 2) == 0 {
+	seeded := verif.Tier() == "thorough" && verif.Choose("seeded", 2) == 1
+	if seeded || verif.Choose("wrapper", 2) == 0 {
 		st = newState()
 	} else {
 		st = state.WrapCore(inmem.NewState(tres.NS))
@@ -237,13 +238,12 @@ func H_History() {
 	ids := []string{verif.Atom("idA"), verif.Atom("idB")}
 	verif.Assume(ids[0] != ids[1])
 	m := &spec{}
-	if verif.Tier() == "thorough" && verif.Choose("seeded", 2) == 1 {
-		// thorough: also every 4-call history whose first call is a successful Create (a first call
-		// that fails on the empty state changes nothing, so those are the 3-call histories again)
-		id := verif.Atom("id0")
-		verif.Assume(verif.Or(id == ids[0], id == ids[1]))
+	if seeded {
+		// thorough: also every 4-call history (on the namespaced wrapper) whose first call is a
+		// successful Create - of idA without loss of generality, both ids being arbitrary; a first call
+		// that fails on the empty state changes nothing, so those are the 3-call histories again
 		owner := verif.Atom("owner0")
-		verif.Assert(st.Create(ctx, tres.NewA(tres.NS, id, "c"), state.WithCreateOwner(owner)) == nil && m.create(id, owner, "c") == okClass, "Create on the empty state succeeds")
+		verif.Assert(st.Create(ctx, tres.NewA(tres.NS, ids[0], "c"), state.WithCreateOwner(owner)) == nil && m.create(ids[0], owner, "c") == okClass, "Create on the empty state succeeds")
 		checkState(ctx, st, m, ids)
 		verif.Cover("four calls")
 	}
